@@ -10,7 +10,9 @@ import (
 	"bytes"
 	"encoding/json"
 	"fmt"
+	"runtime"
 	"sort"
+	"sync"
 	"testing"
 
 	"github.com/ontio/ontology-crypto/keypair"
@@ -321,19 +323,44 @@ func TestVerifAuthReplay(t *testing.T) {
 	vhIn(&in)
 	out := vhOpenOut()
 	defer out.Close()
-	for pi, p := range in.Paths {
-		w := newAWorld(&in)
-		for _, a := range p.Setup {
-			if r, e := w.apply(a); r != "true" {
-				b, _ := json.Marshal(a)
-				panic(fmt.Sprintf("setup step %s failed: %s %s", b, r, e))
+	aInit()
+	nw := vhEnvInt("VERIF_WORKERS", runtime.NumCPU())
+	var mu sync.Mutex
+	var wg sync.WaitGroup
+	next := 0
+	for k := 0; k < nw; k++ {
+		wg.Add(1)
+		go func() {
+			defer wg.Done()
+			for {
+				mu.Lock()
+				pi := next
+				next++
+				mu.Unlock()
+				if pi >= len(in.Paths) {
+					return
+				}
+				p := in.Paths[pi]
+				w := newAWorld(&in)
+				for _, a := range p.Setup {
+					if r, e := w.apply(a); r != "true" {
+						b, _ := json.Marshal(a)
+						panic(fmt.Sprintf("setup step %s failed: %s %s", b, r, e))
+					}
+				}
+				w.now = p.Now
+				obs := []aObs{w.observe(pi, 0, "init", "")}
+				for si, a := range p.Steps {
+					r, e := w.apply(a)
+					obs = append(obs, w.observe(pi, si+1, r, e))
+				}
+				mu.Lock()
+				for _, o := range obs {
+					out.Emit(o)
+				}
+				mu.Unlock()
 			}
-		}
-		w.now = p.Now
-		out.Emit(w.observe(pi, 0, "init", ""))
-		for si, a := range p.Steps {
-			r, e := w.apply(a)
-			out.Emit(w.observe(pi, si+1, r, e))
-		}
+		}()
 	}
+	wg.Wait()
 }
